@@ -15,8 +15,9 @@ type c01Obs struct {
 	Quiescent bool         `json:"-"` // last round changed no object (all resourceVersions equal); monitor only
 }
 
-var c01KindOf = map[string]string{"a": "KA", "b": "KB", "c": "KA", "d": "KB"}
-var c01RNames = []string{"a", "b", "c", "d"}
+// "e" is of kind KA2: the same Kind name as KA, served by another API group
+var c01KindOf = map[string]string{"a": "KA", "b": "KB", "c": "KA", "d": "KB", "e": "KA2"}
+var c01RNames = []string{"a", "b", "c", "d", "e"}
 
 func c01Desired(r *Rng) []xwDesired {
 	ds := []xwDesired{}
@@ -44,6 +45,14 @@ func c01Gen(r *Rng) xwScn {
 			}
 			i++
 			o := xwObj{Kind: c01KindOf[n], Name: fmt.Sprintf("xr-pre%d", i), Annot: n, Ctrl: "xr", Content: r.Intn(3), SSA: s.Mode == "fn"}
+			if o.Kind == "KA2" && r.Chance(2, 3) {
+				// the same metadata.name as an object of Kind KA in the other group
+				for _, p := range s.Objs {
+					if p.Kind == "KA" {
+						o.Name = p.Name
+					}
+				}
+			}
 			switch r.Intn(10) {
 			case 0:
 				o.Ctrl = "other"
